@@ -98,7 +98,7 @@ def run_shard(spec, rng, ctx):
             alg = C.PACKERS[i % 5] if i % 3 else "bc"      # bin-completion gets half of the cases (its defects need search)
             cls = None
             if alg == "bc":
-                cls = rng.choice(["hardpack", "hardpack", "hardpack", "repeat", "repeat", "threshold", "random", "zeros", "equal", "planted", "widerange"])
+                cls = rng.choice(["hardpack", "hardpack", "hardpack", "repeat", "repeat", "repeat_large", "repeat_large", "repeat_large", "threshold", "random", "zeros", "equal", "planted", "widerange"])
             judge(C.draw_pack_case(rng, alg=alg, cls=cls), ctx)
             i += 1
     finally:
